@@ -78,7 +78,9 @@ def expect(kind, raw, ctx):
                     return ("fail", ("InvalidRelativePath",))
                 # (a relative working directory gives a relative result: joined all the same; only idempotence cannot be asked then)
                 full = os.path.join(wd, s)
-            if must_exist and full not in ctx.get("exists", ()):
+            # (a relative result is looked up in the file system: what it denotes depends on the directory the process runs in)
+            present = full in ctx.get("exists", ()) if os.path.isabs(full) else os.path.exists(full)
+            if must_exist and not present:
                 return ("fail", ("PathDoesNotExist",))
             return ("be", full)
         if tag in ("list", "dict", "cmd", "none", "type"):
